@@ -28,11 +28,11 @@ Definition c1 := as_config Q_ops U_c s_c.
 
 Lemma C16_stable_at_wrap_refuted :
   Qeq_bool (bc_phi_deg (c_signal c1)) 360 = true /\
-  exists s2 nf, try_as_spdc_steps Q_ops U_c K_c (1 # 1000000000000) c1 = Ok (s2, nf) /\
+  exists s2 nf, try_as_spdc_steps Q_ops U_c K_c (1 # 1000000000000) true c1 = Ok (s2, nf) /\
                 Qeq_bool (bc_phi_deg (c_signal (as_config Q_ops U_c s2))) 0 = true.
 Proof.
   split; [vm_compute; reflexivity |].
-  destruct (try_as_spdc_steps Q_ops U_c K_c (1 # 1000000000000) c1) as [[s2 nf] | |] eqn:H.
+  destruct (try_as_spdc_steps Q_ops U_c K_c (1 # 1000000000000) true c1) as [[s2 nf] | |] eqn:H.
   - exists s2, nf. split; [reflexivity |]. vm_compute in H. inversion H. subst. vm_compute. reflexivity.
   - vm_compute in H. discriminate.
   - vm_compute in H. discriminate.
